@@ -93,6 +93,7 @@ func (d *duplexHTTPCall) Write(data []byte) (int, error) {
 		d.SetError(err)
 		return 0, wrapIfContextError(err)
 	}
+	verifYield("write")
 	// It's safe to write to this side of the pipe while net/http concurrently
 	// reads from the other side.
 	bytesWritten, err := d.requestBodyWriter.Write(data)
@@ -123,6 +124,7 @@ func (d *duplexHTTPCall) CloseWrite() error {
 	// forever. To make sure users don't have to worry about this, the generated
 	// code for unary, client streaming, and server streaming RPCs must call
 	// CloseWrite automatically rather than requiring the user to do it.
+	verifYield("closewrite")
 	return d.requestBodyWriter.Close()
 }
 
@@ -153,6 +155,7 @@ func (d *duplexHTTPCall) Read(data []byte) (int, error) {
 	if d.response == nil {
 		return 0, fmt.Errorf("nil response from %v", d.request.URL)
 	}
+	verifYield("read")
 	n, err := d.response.Body.Read(data)
 	return n, wrapIfRSTError(err)
 }
@@ -162,6 +165,7 @@ func (d *duplexHTTPCall) CloseRead() error {
 	if d.response == nil {
 		return nil
 	}
+	verifYield("closeread")
 	if err := discard(d.response.Body); err != nil {
 		return wrapIfRSTError(err)
 	}
@@ -207,6 +211,7 @@ func (d *duplexHTTPCall) SetError(err error) {
 	// Closing the read side of the request body pipe acquires an internal lock,
 	// so we want to scope errMu's usage narrowly and avoid defer.
 	d.errMu.Unlock()
+	verifYield("seterror")
 
 	// We've already hit an error, so we should stop writing to the request body.
 	// It's safe to call Close more than once and/or concurrently (calls after
@@ -238,6 +243,8 @@ func (d *duplexHTTPCall) makeRequest() {
 	// This runs concurrently with Write and CloseWrite. Read and CloseRead wait
 	// on d.responseReady, so we can't race with them.
 	defer close(d.responseReady)
+	defer verifYield("responseready")
+	verifYield("beforedo")
 
 	// Once we send a message to the server, they send a message back and
 	// establish the receive side of the stream.
@@ -254,6 +261,7 @@ func (d *duplexHTTPCall) makeRequest() {
 		return
 	}
 	d.response = response
+	verifYield("afterdo")
 	if err := d.validateResponse(response); err != nil {
 		d.SetError(err)
 		return
